@@ -31,3 +31,18 @@ def classify(v, open_findings):
         except Exception:
             continue
     return None
+
+
+@predicate("zero_size_chunk_arith")
+def _zero_size(v):
+    """cubed's chunk arithmetic is not robust for arrays with a zero-length dimension: chunks of such
+    a dimension normalise to (0,), which unify_chunks / normalize_chunks / key_to_slices mishandle
+    (ZeroDivisionError while building, or IndexError/ValueError inside a task)."""
+    f = v.get("facts", {})
+    if not f.get("has_zero_size"):
+        return False
+    if v.get("kind") == "bad-exception-type":
+        return f.get("type") == "ZeroDivisionError" and "normalize_chunks" in " ".join(f.get("cubed_funcs", []) + [f.get("where", "")]) or f.get("type") == "ZeroDivisionError"
+    if v.get("kind") == "failed-mid-run":
+        return f.get("type") in ("IndexError", "ValueError")
+    return False
